@@ -8,6 +8,9 @@ HERE = os.path.dirname(os.path.dirname(os.path.abspath(__file__)))
 dirs = [os.path.abspath(d) for d in sys.argv[1:]] or sorted(glob.glob(os.path.join(HERE, "seeded", "*")))
 
 
+WORKDIRS = set()
+
+
 def one(d):
     if os.path.exists(os.path.join(d, "meta.json")):
         meta = json.load(open(os.path.join(d, "meta.json")))
@@ -17,7 +20,11 @@ def one(d):
                 "needs_to_manifest": am.get("needs_to_manifest") or am.get("needs"),
                 "author": "independent sub-agent given only the property text and a scratch worktree (round 2)"}
         json.dump(meta, open(os.path.join(d, "meta.json"), "w"), indent=1)
-    r = subprocess.run([os.path.join(HERE, "tools", "seed_eval.py"), d, "ALL"], stdout=subprocess.PIPE, stderr=subprocess.PIPE, text=True)
+    import threading
+    work = "/tmp/seedwork-%d" % (threading.get_ident() % 100000)
+    WORKDIRS.add(work)
+    r = subprocess.run([os.path.join(HERE, "tools", "seed_eval.py"), d, "ALL"], stdout=subprocess.PIPE, stderr=subprocess.PIPE, text=True,
+                       env=dict(os.environ, SEED_WORK=work))
     try:
         ev = json.loads(r.stdout)
     except Exception:
@@ -27,7 +34,9 @@ def one(d):
     dp = all(v[0] != 0 for v in ev.get("demo_with_patch", {}).values())
     # C10 seeds are compile-level: the demo is a program that must NOT compile without the patch
     if meta["property"] == "C10":
-        dw, dp = all(v[0] != 0 for v in ev["demo_without_patch"].values()), all(v[0] == 0 for v in ev.get("demo_with_patch", {}).values())
+        # the demonstration must not compile without the patch; a twin program shipped with the seed compiles either way
+        dem = lambda d_: {k: v for k, v in d_.items() if "twin" not in k}  # noqa: E731
+        dw, dp = all(v[0] != 0 for v in dem(ev["demo_without_patch"]).values()), all(v[0] == 0 for v in dem(ev.get("demo_with_patch", {})).values())
     suite = ev.get("suite_with_patch") or [1, 0, 0]
     meta["confirmed"] = {"patch_applies_to_repo_head": bool(ev.get("patch_applies")),
                          "existing_suite_with_patch": "%d passed / %d failed (cargo test --workspace --offline)" % (suite[1], suite[2]),
@@ -41,6 +50,11 @@ def one(d):
     return d, "%s suite=%s demo(w/o,with)=(%s,%s) checks=%s" % (meta["property"], suite[1:], dw, dp, checks)
 
 
-with ThreadPoolExecutor(max_workers=5) as ex:
-    for d, msg in ex.map(one, dirs):
-        print(os.path.basename(d), msg)
+import shutil
+try:
+    with ThreadPoolExecutor(max_workers=5) as ex:
+        for d, msg in ex.map(one, dirs):
+            print(os.path.basename(d), msg, flush=True)
+finally:
+    for w in WORKDIRS:
+        shutil.rmtree(w, ignore_errors=True)
